@@ -23,7 +23,7 @@ AS = (1 / 64, 0.25, 0.5, 2.0, 3.0, 10.0, 64.0, 100.0)
 
 def REQUIRED(tier):
     return [f"scale:{m}" for m in SCALES] + ["axis:None", "axis:0", "axis:1", "shape:one_lane", "shape:2d", "shape:1d", "class:constant", "class:zeros", "class:mixed_lanes", "class:ties",
-                                             "class:outliers", "equivariance_checks", "zscore_checks", "lane_checks", "a<0", "via_block", "via_timeseries"]
+                                             "class:outliers", "equivariance_checks", "zscore_checks", "lane_checks", "a<0", "via_block", "via_timeseries", "layout:F", "layout:T_view"]
 
 
 def cases(tier, seed):
@@ -104,8 +104,19 @@ def _one(case, j, ctx):
     a = float(rng.choice(AS) * rng.choice([-1, 1]))
     b = float(rng.integers(-1000, 1000))
     x = _data(rng, shape, cls)
+    lay = "C"
+    if x.ndim == 2:
+        lay = str(rng.choice(["C", "F", "T_view"], p=[0.5, 0.25, 0.25]))
+        if lay == "F":
+            x = np.asfortranarray(x)
+        elif lay == "T_view":
+            x = np.ascontiguousarray(x.T).T      # same values and shape, transposed strides
+        ctx.count(f"layout:{lay}")
     y = (a * x.astype(np.float64) + b).astype(np.float32)
-    one = {"n": 1, "seed": case["seed"], "only": j, "params": {"scale": method, "loc": loc, "shape": list(shape), "axis": axis, "cls": cls, "a": a, "b": b}}
+    if lay == "F":
+        y = np.asfortranarray(y)
+    one = {"n": 1, "seed": case["seed"], "only": j, "params": {"scale": method, "loc": loc, "shape": list(shape), "axis": axis, "cls": cls, "a": a, "b": b, "layout": lay}}
+    one["params"]["layout"] = lay
     ctx.evaluated()
     for k in (f"scale:{method}", f"axis:{axis}", f"shape:{shape_cls}", f"class:{cls}"):
         ctx.count(k)
